@@ -17,7 +17,7 @@ import numpy as np
 from scipy.spatial.transform import Rotation as R
 
 from .. import tlc
-from ..common import MachineryError, cjson, import_magpylib, rng, seed, tier, workdir
+from ..common import MachineryError, cjson, import_magpylib, rng, tier, workdir
 from ..lattice import Kappa
 from ..quant import gross, q8, q12
 
